@@ -448,11 +448,16 @@ def gen_scenario(seed):
         for st in stmts:
             st['cat'] = top
         sessions.append({'stmts': stmts, 'script': gen_script(rng, nst), 'cache_templates': rng.random() < 0.3, 'logs': rng.random() < 0.35, 'graft': rng.random() < 0.2})
-    threads = rng.random() < 0.15
+    threads = rng.random() < 0.2
     spec = {'cmd': 'c12', 'property': PROP, 'seed': seed, 'hashseed': seed % 16, 'sessions': sessions, 'threads': threads,
             'order_seed': rng.randrange(1 << 30), 'share_catalog': rng.random() < 0.5, 'share_values': rng.random() < 0.4}
     if threads:
-        spec['strategy'] = {'kind': 'bernoulli', 'p': rng.choice([0.002, 0.01, 0.03])}
+        if rng.random() < 0.5:
+            spec['strategy'] = {'kind': 'bernoulli', 'p': rng.choice([0.002, 0.01, 0.03])}
+        else:
+            # dense pre-emption in the code that collects and binds placeholders and keeps the session state
+            spec['strategy'] = {'kind': 'focus', 'p': rng.choice([0.1, 0.3, 0.6]),
+                                'files': ['mindsdb_sql/planner/utils.py', 'mindsdb_sql/planner/query_prepare.py']}
         spec['sched_seed'] = rng.randrange(1 << 30)
     return spec
 
